@@ -45,6 +45,7 @@ var idSignature = map[string]string{
 	"N12": "datauri:charset-without-type-dropped",
 	"N13": "math-function:newer-css-values-4-function-not-understood",
 	"N14": "background:size-minified-as-position",
+	"N22": "background:math-function-as-position-offset",
 	"N15": "unicode-range:initial-in-list",
 	"N16": "bgpos:zero-removed-from-earlier-layer",
 	"N17": "font:first-word-of-dash-family-quoted",
